@@ -58,7 +58,7 @@ def run(tier, seed):
         "evaluations": summary["evaluations"],
         "distinct_nontrivial": summary["distinct_nontrivial"],
         "exhaustive": False,
-        "rule": "streams: (1) grammar-derived valid configurations covering every clause kind of the manual (see clause_kinds), laid out over files with includes (sibling, sub-directory, -I only, by path), continuations, comments, odd indentation, missing final newline; (2) the same with ONE fault at a position the generator knows (bogus clause, missing include, undefined parameter, unterminated continuation, include of a directory) — oracle = exactly that file, line, include chain and kind; (3) 1-3 random mutations of (1) (delete/swap/duplicate bytes and lines, truncate, backslash at line end, spliced keywords and odd bytes); (4) arbitrary bytes (all bytes / printable / token soup / newline-backslash-tilde heavy); (5) include graphs (chains to depth 12, diamonds, self/mutual/3-cycles, directories, missing files, -I only, shadowing, `..`) with the reference reading order computed by an independent recursive expander; (6) the reader alone, every logical line with position and include chain compared exactly; (7) the `edit` splitter on structured and random commands; corpus of past failures first. Each real parse runs under a %ds watchdog with recover(). distinct_nontrivial = distinct (file set, -D list) with at least 8 bytes of input, counted by content." % 20,
+        "rule": "streams: (1) grammar-derived valid configurations covering every clause kind of the manual (see clause_kinds), laid out over files with includes (sibling, sub-directory, -I only, by path), continuations, comments, odd indentation, missing final newline; (2) the same with ONE fault at a position the generator knows (bogus clause, missing include, undefined parameter, unterminated continuation, include of a directory) — oracle = exactly that file, line, include chain and kind; (3) 1-3 random mutations of (1) (delete/swap/duplicate bytes and lines, truncate, backslash at line end, spliced keywords and odd bytes); (4) arbitrary bytes (all bytes / printable / token soup / newline-backslash-tilde heavy); (5) include graphs (chains to depth 12, diamonds, self/mutual/3-cycles, directories, missing files, -I only, shadowing, `..`) with the reference reading order computed by an independent recursive expander; (6) the reader alone, every logical line with position and include chain compared exactly; (7) the `edit` splitter on structured and random commands; corpus of past failures first. Each real parse runs under a %ds watchdog with recover(); after a hang no further experiment is started. distinct_nontrivial = distinct (file set, -D list) with at least 8 bytes of input, counted by content." % 10,
         "samples": summary["samples"],
         "distribution": {k: summary[k] for k in ("counts", "outcomes", "by_stream", "error_classes", "faults", "graph_shapes",
                                                   "clause_kinds", "grammar_texts_accepted", "grammar_texts_total",
